@@ -29,6 +29,15 @@ def step (_ : Unit) (toks : List String) : Unit × String :=
         | .restore ttl data => s!"restore {hexOfBytes ttl} {hexOfBytes data}"
         | .error => "error")
     | _, _ => ((), "bad-op")
+  | ["pull", d, p] =>
+    -- the real pull path: DUMP reply, PTTL reply → the RESTORE sent to the destination
+    match replyOf d, replyOf p with
+    | some dr, some pr =>
+      ((), match pullTransfer dr pr with
+        | .skip => "skip"
+        | .restore ttl data => s!"restore {hexOfBytes ttl} {hexOfBytes data}"
+        | .error => "error")
+    | _, _ => ((), "bad-op")
   | _ => ((), "bad-op")
 
 def run : IO Unit := Um.Drv.loop () step
